@@ -57,14 +57,23 @@ type freeCfg struct {
 	Lockers   int   `json:"lockers"`
 	Workers   int   `json:"workers"`
 	K         int   `json:"acquisitions"`
+	// Slow: the lease is 400 ms (hook) and holders keep the lock 120-250 ms, i.e. longer than a quarter of a
+	// lease: whatever internal timeouts the waiting path has, an attempt whose own context is alive must not fail
+	Slow bool `json:"slow_holders,omitempty"`
 }
 
 func freeRound(c freeCfg) (sig, what string, timeBound bool) {
 	inner := inmem.New()
 	var provs []dist.LockProvider
 	for i := 0; i < c.Providers; i++ {
-		provs = append(provs, dist.NewKvsLockProvider(inner, "/h/"))
+		p := dist.NewKvsLockProvider(inner, "/h/")
+		if c.Slow {
+			dist.VerifSetLeaseTTL(p, 400*time.Millisecond)
+		}
+		provs = append(provs, p)
 	}
+	var failMu sync.Mutex
+	failed := ""
 	var lockers []gsync.Locker
 	for i := 0; i < c.Lockers; i++ {
 		lockers = append(lockers, provs[i%c.Providers].NewLocker("x"))
@@ -80,7 +89,11 @@ func freeRound(c freeCfg) (sig, what string, timeBound bool) {
 			l := lockers[w%c.Lockers]
 			for i := 0; i < c.K; i++ {
 				got := false
-				switch r.Intn(5) {
+				x := r.Intn(5)
+				if c.Slow && x < 2 {
+					x = 2 + r.Intn(2)
+				}
+				switch x {
 				case 0:
 					got = l.TryLock(context.Background())
 				case 1:
@@ -88,10 +101,28 @@ func freeRound(c freeCfg) (sig, what string, timeBound bool) {
 					got = l.LockWithCtx(ctx) == nil
 					cancel()
 				case 2:
-					got = l.LockWithCtx(context.Background()) == nil
+					err := l.LockWithCtx(context.Background())
+					got = err == nil
+					if err != nil {
+						failMu.Lock()
+						failed = fmt.Sprintf("LockWithCtx with a live (background) context returned %v", err)
+						failMu.Unlock()
+					}
 				default:
-					l.Lock()
-					got = true
+					func() {
+						defer func() {
+							if p := recover(); p != nil {
+								failMu.Lock()
+								failed = fmt.Sprintf("Lock panicked: %v", p)
+								failMu.Unlock()
+							}
+						}()
+						l.Lock()
+						got = true
+					}()
+				}
+				if got && c.Slow {
+					time.Sleep(time.Duration(120+r.Intn(130)) * time.Millisecond)
 				}
 				if got {
 					acquired.Add(1)
@@ -110,7 +141,10 @@ func freeRound(c freeCfg) (sig, what string, timeBound bool) {
 	case <-time.After(60 * time.Second):
 		return "lock/free-running-stuck", fmt.Sprintf("real scheduling: %d workers on %d lockers did not all finish their %d acquisitions within 60 s (healthy: milliseconds)", c.Workers, c.Lockers, c.K), true
 	}
-	if el := time.Since(begin); el > handOffBound {
+	if failed != "" {
+		return "lock/attempt-failed-without-cause", "real scheduling: nothing was cancelled, injected or shut down, but " + failed, false
+	}
+	if el := time.Since(begin); el > handOffBound && !c.Slow {
 		return "lock/free-running-hand-off-late", fmt.Sprintf("real scheduling: %d workers needed %v for %d acquisitions each (healthy: milliseconds): a waiter was not woken by the release it waited for and was only rescued by the lease running out", c.Workers, el, c.K), true
 	}
 	if _, err := inner.Get(context.Background(), "/h/x"); err == nil {
@@ -201,6 +235,10 @@ func TestCheck(t *testing.T) {
 	rng := rand.New(rand.NewSource(run.Seed()))
 	for i := 0; i < n; i++ {
 		jobs <- freeCfg{Seed: run.Seed()*100_003 + int64(i), Providers: 1 + rng.Intn(3), Lockers: 2 + rng.Intn(3), Workers: 3 + rng.Intn(8), K: 4 + rng.Intn(5)}
+	}
+	// slow holders with a short lease (these rounds mostly sleep)
+	for i := 0; i < run.Pick(6, 60); i++ {
+		jobs <- freeCfg{Seed: run.Seed()*7_003 + int64(i), Providers: 2, Lockers: 2 + i%2, Workers: 3 + i%2, K: 2, Slow: true}
 	}
 	close(jobs)
 	wg.Wait()
